@@ -251,7 +251,42 @@ def parse_dot(text):
     return _graph_value(nodes, edges, refs, labels)
 
 
+class Spellings(list):
+    """token spellings of a formula (hex-encoded in the case line)"""
+
+
+_ply_parser = [None]
+
+
+def ply_tree(spellings):
+    """syntax tree of the implementation's parser, rendered like the
+    model's [show_ast]"""
+    import dd._parser as P
+    if _ply_parser[0] is None:
+        _ply_parser[0] = P.Parser()
+    t = _ply_parser[0].parse(' '.join(spellings))
+
+    def show(t):
+        if hasattr(t, 'operands'):
+            op, xs = t.operator, t.operands
+            if op in ('\\A', '\\E'):
+                names, e = xs
+                return f'({op} [{" ".join(n.value for n in names)}] {show(e)})'
+            if op == '\\S':
+                e, subs = xs
+                return '(\\S [' + ' '.join(f'{new.value}/{old.value}' for old, new in subs) + f'] {show(e)})'
+            return '(' + ' '.join([op] + [show(x) for x in xs]) + ')'
+        if t.type == 'bool':
+            return 'T' if t.value.lower() == 'true' else 'F'
+        if t.type == 'num':
+            return '@' + str(int(t.value))
+        return t.value
+    return show(t)
+
+
 def fmt_arg(a):
+    if isinstance(a, Spellings):
+        return '[' + ','.join(x.encode().hex() for x in a) + ']'
     if a is None:
         return 'none'
     if isinstance(a, bool):
@@ -446,6 +481,10 @@ class Impl:
             srcm = 'a%d' % src
             f = self.handles[srcm][u]
             return self._h(m, self.amgr[srcm].copy(f, a))
+        if name == 'add_expr':
+            return self._h(m, a.add_expr(' '.join(args[0])))
+        if name == 'to_expr':
+            return a.to_expr(F(args[0]))
         if name == 'shutdown':
             try:
                 a._bdd.__del__()
@@ -672,6 +711,13 @@ class Impl:
             return True
         except AssertionError:
             return False
+
+    # ---- formulas ----
+    def op_add_expr(self, b, spellings):
+        return b.add_expr(' '.join(spellings))
+
+    def op_to_expr(self, b, u):
+        return b.to_expr(u)
 
     def run(self, m, name, *args):
         """Run one operation; return (tape, result_text, raw_value)."""
